@@ -645,6 +645,16 @@ def _system_group(system):
         want = snp.array(place(consts))
         E.prove('%s.dispatch_by_keyword_count' % system, len(Spy.received) == 1)
         E.prove_eq('%s.placement' % system, Spy.received[0], want)
+        if system in ('hexagonal', 'rhombohedral'):
+            # the same material named by C66 = (C11 - C12)/2 in place of C12, or in place of C11: the same tensor
+            c66 = (consts['C11'] - consts['C12']) / 2
+            for form, drop in (('C11,C66', 'C12'), ('C12,C66', 'C11')):
+                alt = {k: v for k, v in consts.items() if k != drop}
+                alt['C66'] = c66
+                del Spy.received[:]
+                Spy(**alt)
+                E.prove('%s.keyword_form[%s].dispatch' % (system, form), len(Spy.received) == 1)
+                E.prove_eq('%s.keyword_form[%s].same_tensor' % (system, form), Spy.received[0], want)
         # invariance under the generating rotations (real transform and real axes_check on the concrete generator)
         real = mod.ElasticConstants
         mod.ElasticConstants = Spy
